@@ -21,7 +21,7 @@ func howClass(e string) string { return e }
 
 func main() {
 	c := vk.Init("C17")
-	c.Rule("case i: PRNG(seed,i) draws a template (fields/components/groups, depth<=3, 7 value types, header/body/trailer; every third template's trailer may hold components and groups too), a population (each leaf populated with p=0.7 through one of 5 constructor/setter paths; Set(nil) un-population; group entries direct or via AsTemplate) and values; plus every tests/fix44 message type populated through the items it exposes, plus the generated typed API by reflection (values set on group entries before AddEntry, on entries handed back by Entries(), and members replaced as a whole through Set<Component>/Set<Group> must be on the wire); plus Set calls with values of a wrong Go type on every leaf (they return an error and must leave the wire unchanged); plus updates AFTER a serialization on every fix44 message and every fourth template message: one body field set / un-set through its value, one group entry added, header untouched, serialized again after each step. distinct = hash(template shape, wire bytes); non-trivial = at least one populated non-framing field")
+	c.Rule("case i: PRNG(seed,i) draws a template (fields/components/groups, depth<=3, 7 value types, header/body/trailer; every third template's trailer may hold components and groups too), a population (each leaf populated with p=0.7 through one of 5 constructor/setter paths; Set(nil) un-population; group entries direct or via AsTemplate) and values; plus every tests/fix44 message type populated through the items it exposes, plus the generated typed API by reflection (values set on group entries before AddEntry, on entries handed back by Entries(), and members replaced as a whole through Set<Component>/Set<Group> must be on the wire); plus Set calls with values of a wrong Go type on every leaf (they return an error and must leave the wire unchanged); plus updates AFTER a serialization on every fix44 message and every fourth template message: one body field set / un-set through its value, one group entry added, header untouched, serialized again after each step; plus re-population BY PARSING after a serialization (every populated body leaf of every fourth template message and every second fix44 message gets KeyValue.FromBytes of another canonical text of its type, all seven value types; the next ToBytes carries each once with the new text). distinct = hash(template shape, wire bytes); non-trivial = at least one populated non-framing field")
 	c.Assume("fixref tokenizer and the harness's expected-field computation are the trusted base")
 	c.Assume("a Message is always given a header and a trailer component (possibly empty); never-SetHeader messages are not generated")
 	n := c.Pick(20000, 500000)
@@ -94,6 +94,9 @@ func main() {
 		if err == nil && pan == "" && i%4 == 0 {
 			updateAfterSerialization(c, "template", i, m, tagCountsOf(m))
 		}
+		if err == nil && pan == "" && i%4 == 2 {
+			reparseAfterSerialization(c, "template", i, m, tagCountsOf(m))
+		}
 		c.Count("unset_fields", int64(countUnset(mp)))
 	})
 	vk.Parallel(nf44*len(gen.F44Types), runtime.NumCPU(), func(i int) {
@@ -110,8 +113,11 @@ func main() {
 		if err == nil && pan == "" && i%2 == 1 {
 			refusedSets(c, "fix44/"+ty.Name, i, m, wire)
 		}
-		if err == nil && pan == "" {
+		if err == nil && pan == "" && i%2 == 0 {
 			updateAfterSerialization(c, "fix44/"+ty.Name, i, m, tagCountsOf(m))
+		}
+		if err == nil && pan == "" && i%2 == 1 {
+			reparseAfterSerialization(c, "fix44/"+ty.Name, i, m, tagCountsOf(m))
 		}
 		c.SetAdd("fix44_types", ty.Name)
 	})
@@ -163,6 +169,86 @@ func countField(fs []fixref.Field, tag, val string) (withTag, withVal int) {
 		}
 	}
 	return
+}
+
+// reparseAfterSerialization re-populates every populated BODY leaf (top level and inside components, not inside group
+// entries) of a message object that has already been serialized BY PARSING — KeyValue.FromBytes with a different
+// canonical text of the value's own type, the path encoding.Unmarshal takes when a used message object is filled
+// again — and serializes once more: every such field is on the wire once, with the new text.
+func reparseAfterSerialization(c *vk.Ctx, kind string, idx int, m *fix.Message, tagCount map[string]int) {
+	replay := map[string]interface{}{"generator": kind, "index": idx, "seed": c.Seed}
+	type want struct{ tag, text, typ string }
+	var wants []want
+	var walk func(items fix.Items)
+	walk = func(items fix.Items) {
+		for _, it := range items {
+			switch el := it.(type) {
+			case *fix.KeyValue:
+				if el == nil || el.Value == nil || tagCount[el.Key] != 1 {
+					continue
+				}
+				cur := string(el.Value.ToBytes())
+				if cur == "" {
+					continue
+				}
+				var text, typ string
+				switch el.Value.(type) {
+				case *fix.String:
+					text, typ = fmt.Sprintf("rp-%d", idx), "String"
+				case *fix.Raw:
+					text, typ = fmt.Sprintf("rp-%d", idx), "Raw"
+				case *fix.Int:
+					text, typ = strconv.Itoa(800000+idx%90000), "Int"
+				case *fix.Uint:
+					text, typ = strconv.Itoa(800000+idx%90000), "Uint"
+				case *fix.Float:
+					text, typ = strconv.Itoa(8000+idx%900)+".25", "Float"
+				case *fix.Time:
+					text, typ = fmt.Sprintf("20240301-10:%02d:%02d.%03d", idx%60, (idx/60)%60, idx%1000), "Time"
+				case *fix.Bool:
+					text, typ = "Y", "Bool"
+					if cur == "Y" {
+						text = "N"
+					}
+				default:
+					continue
+				}
+				if text == cur {
+					continue
+				}
+				if err := el.FromBytes([]byte(text)); err != nil {
+					c.Violate("C17/reparse-after-serialization/FromBytes-refused/"+typ, fmt.Sprintf("%s #%d: field %s (%s) refused the canonical text %q: %v", kind, idx, el.Key, typ, text, err), replay)
+					continue
+				}
+				wants = append(wants, want{el.Key, text, typ})
+			case *fix.Component:
+				if el != nil {
+					walk(el.Items())
+				}
+			}
+		}
+	}
+	walk(m.Body())
+	if len(wants) == 0 {
+		return
+	}
+	wire, err, pan := gen.Serialize(m)
+	if err != nil || pan != "" {
+		c.Violate("C17/reparse-after-serialization/serialize-failed", fmt.Sprintf("%s #%d: err=%v panic=%s", kind, idx, err, pan), replay)
+		return
+	}
+	fs, terr := fixref.Tokenize(wire)
+	if terr != nil {
+		c.Violate("C17/reparse-after-serialization/wire-malformed", fmt.Sprintf("%s #%d: %v", kind, idx, terr), replay)
+		return
+	}
+	replay["wire"] = vk.Trunc(fixref.Pretty(wire), 1200)
+	for _, w := range wants {
+		c.Count("reparsed_after_serialization/"+w.typ, 1)
+		if nt, nv := countField(fs, w.tag, w.text); nt != 1 || nv != 1 {
+			c.Violate("C17/reparse-after-serialization/parsed-value-not-on-wire/"+w.typ, fmt.Sprintf("%s #%d: field %s (%s) of a message object that had been serialized before was populated again by parsing %q; the next ToBytes carries the tag %d times, with that text %d times", kind, idx, w.tag, w.typ, w.text, nt, nv), replay)
+		}
+	}
 }
 
 // updateAfterSerialization changes BODY content of a message object that has already been serialized, through the
